@@ -78,3 +78,10 @@ Definition mint_fn (i : mint_in) : option mint_out :=
             mo_bond_minted := (if 0 <? bond then bond else 0);
             mo_last := now |}
   else Some {| mo_fee_minted := 0; mo_bond_minted := 0; mo_last := now |}.
+
+(* The provision a mint invocation is due (the specification of "nothing lost"): the annual
+   provision for the combined supply, pro-rated to the seconds since the previous invocation
+   (60 on the first one) and clamped to the annual provision. *)
+Definition provision_of (i : mint_in) : option Z :=
+  let? annual := annual_provision SUPPLY_CAP GENESIS_NS (mi_now_ns i) (mi_fee_supply i + mi_bond_supply i) in
+  block_provision annual (match mi_last i with Some l => unix (mi_now_ns i) - l | None => 60 end).
